@@ -59,6 +59,8 @@ type constructs struct {
 	typeQuoted     bool // a cast type name that cannot be printed bare
 	setNameQuoted  bool // a SET variable name that cannot be printed bare
 	emptyIdent     bool // a dotted name with an empty part (`t.&&`: the tokenizer returns no text for && and ||)
+	rawStrings     map[string]bool // values of plain string fields (names the tree keeps as raw strings: charset, unit, type ...)
+	rawQuotedName  bool            // one of them is a quoted identifier of the input that cannot be read bare
 	oddDottedPart  bool // a dotted name whose later part starts with '/', '.' or '@' (re-tokenized as a path / variable when printed)
 }
 
@@ -86,6 +88,8 @@ func bareOK(kind, name string) bool {
 		probe = "select convert(a, " + name + ") from t"
 	case "set":
 		probe = "set " + name + " = 1"
+	case "col":
+		probe = "select " + name + " from t"
 	}
 	if t, err, _, _ := safeParse(probe); err == nil && t != nil {
 		got := ""
@@ -102,6 +106,9 @@ func bareOK(kind, name string) bool {
 				got = v.FieldByName("Name").String()
 				n++
 			case kind == "set" && tn == "SetExpr":
+				got = v.FieldByName("Name").FieldByName("val").String()
+				n++
+			case kind == "col" && tn == "ColName":
 				got = v.FieldByName("Name").FieldByName("val").String()
 				n++
 			}
@@ -128,10 +135,17 @@ func plainIdent(s string) bool {
 }
 
 func analyse(t sqlparser.Statement) *constructs {
-	cs := &constructs{types: map[string]int{}}
+	cs := &constructs{types: map[string]int{}, rawStrings: map[string]bool{}}
 	visitNodes(t, func(name string, v reflect.Value) {
 		cs.types[name]++
 		cs.nodes++
+		if v.Kind() == reflect.Struct && name != "ColIdent" && name != "TableIdent" {
+			for i := 0; i < v.NumField(); i++ {
+				if f := v.Field(i); f.Kind() == reflect.String && f.Len() > 0 {
+					cs.rawStrings[f.String()] = true
+				}
+			}
+		}
 		switch name {
 		case "Select":
 			if v.FieldByName("Trigger").Len() > 0 {
@@ -429,6 +443,18 @@ type stmtCase struct {
 func check(c *core.Ctx, sc stmtCase, t1 sqlparser.Statement, idx int) *constructs {
 	c.Eval(1)
 	cs := analyse(t1)
+	// quoted identifiers of the input that the tree keeps as a raw string (not as ColIdent/TableIdent)
+	for _, tk := range lex(sc.sql) {
+		if n := len(tk.text); n >= 3 && (tk.text[0] == '`' || tk.text[0] == '"') && tk.text[n-1] == tk.text[0] {
+			name := tk.text[1 : n-1]
+			if tk.text[0] == '`' {
+				name = strings.ReplaceAll(name, "``", "`")
+			}
+			if cs.rawStrings[name] && !bareOK("col", name) {
+				cs.rawQuotedName = true
+			}
+		}
+	}
 	corrupt := selftest && idx%50 == 7
 	f0 := roundTrip(t1, nil, corrupt)
 	replay := map[string]interface{}{"id": sc.id, "source": sc.source, "sql": sc.sql}
@@ -462,6 +488,9 @@ func check(c *core.Ctx, sc stmtCase, t1 sqlparser.Statement, idx int) *construct
 			return "dotted-name-part-retokenized"
 		case cs.setNameQuoted && f.kind == "reparse":
 			return "set-variable-name-needing-quotes-printed-bare"
+		case cs.rawQuotedName && (identSite || f.kind == "tree"):
+			// charset / collation / unit / type ... names are kept as Go strings and printed with %s
+			return "quoted-name-kept-as-raw-string-printed-bare"
 		case cs.types["DDL"] > 0 && partialDDL(sc.sql):
 			return "partially-parsed-ddl"
 		}
